@@ -94,7 +94,8 @@ def build_one(it, default_order, named, pending):
     if 'sshmpint' in it:
         return [reg(El('sshmpint'))]
     if 'ts' in it:
-        return [reg(El('ts', w=it['ts'], order=order, ms=it.get('ms', False)))]
+        # 'forever': does the specification read the all-ones value as "no limit" (OpenSSH certificates) or as an instant?
+        return [reg(El('ts', w=it['ts'], order=order, ms=it.get('ms', False), forever=bool(it.get('forever', False)), from_spec=True))]
     if 'struct' in it:
         names = it['struct'] if isinstance(it['struct'], list) else [it['struct']]
         e = El('nested', cls=None)
